@@ -17,6 +17,7 @@ on the REAL functions (row 11: components ending in a backslash collide).
 """
 import ast
 import json
+import re
 import time
 
 import z3
@@ -63,25 +64,27 @@ def key_lt(a, b):
 
 # =========================================================================================== merge_*_metadata
 class MergeShape:
-    """Structure of merge_study_metadata / merge_trial_metadata read from the current AST (bound by role, not by name)."""
+    """merge_study_metadata / merge_trial_metadata and every module-level helper they call (inlined by the engine).
+    Nothing is bound by name or position inside the bodies: loops are recognised by their ROLE at run time (what they
+    iterate over), the accumulator by its type (the dict-valued local of the frame that owns the loop)."""
 
     def __init__(self, fname):
         self.fname = fname
         self.mod = ModuleInfo.get(MDU)
         self.fn = self.mod.funcs[fname]
         self.params = [a.arg for a in self.fn.args.args]
-        self.dict_name = None
-        for n in ast.walk(self.fn):
-            tgt, val = None, None
-            if isinstance(n, ast.Assign) and len(n.targets) == 1:
-                tgt, val = n.targets[0], n.value
-            elif isinstance(n, ast.AnnAssign) and n.value is not None:
-                tgt, val = n.target, n.value
-            if isinstance(tgt, ast.Name) and ((isinstance(val, ast.Dict) and not val.keys) or
-                                              (isinstance(val, ast.Call) and isinstance(val.func, ast.Name) and val.func.id == 'dict' and not val.args)):
-                self.dict_name = tgt.id
-                break
         self.trial = fname == 'merge_trial_metadata'
+        # call closure inside the module: the functions whose loops may need a contract
+        seen, todo = {}, [self.fn]
+        while todo:
+            f = todo.pop()
+            if f.name in seen:
+                continue
+            seen[f.name] = f
+            for n in ast.walk(f):
+                if isinstance(n, ast.Call) and isinstance(n.func, ast.Name) and n.func.id in self.mod.funcs:
+                    todo.append(self.mod.funcs[n.func.id])
+        self.closure = seen
 
 
 def sel_fn(shape, run):
@@ -96,57 +99,87 @@ def datum_fn(shape):
     return (lambda u: acc(UMU(), 'metadatum')(u)) if shape.trial else (lambda u: u)
 
 
-def install_merge_loops(shape):
+def _accumulator(fr):
+    """the dict-valued local of the frame that owns the loop (a concrete dict still being built, or a symbolic one)."""
+    names = [k for k, v in fr.env.items() if isinstance(v, (M.PyDict, SD.SymMap))]
+    return names[0] if len(names) == 1 else None
+
+
+def _loop_role(run, xs):
+    """'old_items': the loop walks the container's own metadata; 'updates': it walks the list of updates."""
+    if not isinstance(xs, SymList):
+        return None
+    if xs.arr.eq(run.md0.arr) and (xs.n is run.md0.n or (z3.is_expr(xs.n) and xs.n.eq(run.md0.n))):
+        return 'old_items'
+    if xs.arr.eq(run.upd0.arr) and (xs.n is run.upd0.n or (z3.is_expr(xs.n) and xs.n.eq(run.upd0.n))):
+        return 'updates'
+    return None
+
+
+def merge_loop_invariant(it, fr, ctx):
+    """Loop contract of every loop reachable from merge_*_metadata, selected by the loop's role (Appendix F):
+       old_items:  d = view(md[:i])                                     (dom = keys of md[:i], src[k] = last index with key k)
+       updates:    d = view(md) (+) view([datum(u) | u in updates[:i], sel(u)])"""
+    run = it.run
+    shape = run.shape
     VAL = SD.Spec(KV())
-    if shape.dict_name is not None:
-        SD.declare(MDU, shape.fname, shape.dict_name, KEY, VAL)
-    dn = shape.dict_name
+    xs = ctx.iter
+    role = _loop_role(run, xs)
+    dn = _accumulator(fr)
+    if role is None or dn is None:
+        return []                     # not a loop of the merge algorithm: no facts (its effects stay unconstrained)
+    if ctx.phase == 'init':
+        if isinstance(fr.env[dn], M.PyDict):
+            fr.env[dn] = SD.lift(it, fr.env[dn], KEY, VAL)      # the dict becomes symbolic from here on
+        if role == 'updates':
+            run.d_before_updates = fr.env[dn].copy()
+            SD.reset_src(fr.env[dn])                            # ghost: provenance now counts writes of this loop only
+    if ctx.phase == 'head':
+        SD.set_clock(run, ctx.i)
+    d = fr.env[dn]
+    if not isinstance(d, SD.SymMap):
+        return []
+    i = ctx.i
+    k = z3.Const('k!m', KEY.sort)
+    j = z3.Int('j!m')
+    if role == 'old_items':
+        return [('old_items.dom_src', z3.ForAll([k], z3.Implies(d.dom[k], z3.And(d.src[k] >= 0, d.src[k] < i, key_of(xs.arr[d.src[k]]) == k,
+                                                                                     d.val[k] == xs.arr[d.src[k]])))),
+                ('old_items.covered', z3.ForAll([j], z3.Implies(z3.And(j >= 0, j < i), z3.And(d.dom[key_of(xs.arr[j])], d.src[key_of(xs.arr[j])] >= j))))]
+    d0 = run.d_before_updates
+    sel, datum = sel_fn(shape, run), datum_fn(shape)
+    u = lambda ix: xs.arr[ix]
+    return [('updates.old', z3.ForAll([k], z3.Implies(d.src[k] == -1, z3.And(d.dom[k] == d0.dom[k], d.val[k] == d0.val[k])))),
+            ('updates.new', z3.ForAll([k], z3.Implies(d.src[k] != -1, z3.And(d.src[k] >= 0, d.src[k] < i, sel(u(d.src[k])), key_of(datum(u(d.src[k]))) == k,
+                                                                                 d.dom[k], d.val[k] == datum(u(d.src[k])))))),
+            ('updates.covered', z3.ForAll([j], z3.Implies(z3.And(j >= 0, j < i, sel(u(j))), d.src[key_of(datum(u(j)))] >= j)))]
 
-    def inv1(it, fr, ctx):
-        """d = view(md[:i]):  dom = keys of md[:i], src[k] = last index with that key, val[k] = md[src[k]]."""
-        xs = ctx.iter
-        if ctx.phase == 'head':
-            SD.set_clock(it.run, ctx.i)
-        d = SD.lift(it, fr.env[dn], KEY, VAL)
-        i = ctx.i
-        k = z3.Const('k!m1', KEY.sort)
-        j = z3.Int('j!m1')
-        return [('dom_src', z3.ForAll([k], z3.Implies(d.dom[k], z3.And(d.src[k] >= 0, d.src[k] < i, key_of(xs.arr[d.src[k]]) == k,
-                                                                           d.val[k] == xs.arr[d.src[k]])))),
-                ('covered', z3.ForAll([j], z3.Implies(z3.And(j >= 0, j < i), z3.And(d.dom[key_of(xs.arr[j])], d.src[key_of(xs.arr[j])] >= j))))]
 
-    def inv2(it, fr, ctx):
-        """d = view(md) (+) view([datum(u) | u in updates[:i], sel(u)])."""
-        run = it.run
-        xs = ctx.iter
-        if ctx.phase == 'init':
-            run.d_after_loop1 = SD.lift(it, fr.env[dn], KEY, VAL)
-            if isinstance(fr.env[dn], SD.SymMap):
-                SD.reset_src(fr.env[dn])           # ghost: provenance now counts writes of this loop only
-        if ctx.phase == 'head':
-            SD.set_clock(run, ctx.i)
-        d = SD.lift(it, fr.env[dn], KEY, VAL)
-        if ctx.phase == 'init':
-            SD.reset_src(d)
-        d0 = run.d_after_loop1
-        sel, datum = sel_fn(shape, run), datum_fn(shape)
-        i = ctx.i
-        k = z3.Const('k!m2', KEY.sort)
-        j = z3.Int('j!m2')
-        u = lambda ix: xs.arr[ix]
-        return [('old', z3.ForAll([k], z3.Implies(d.src[k] == -1, z3.And(d.dom[k] == d0.dom[k], d.val[k] == d0.val[k])))),
-                ('new', z3.ForAll([k], z3.Implies(d.src[k] != -1, z3.And(d.src[k] >= 0, d.src[k] < i, sel(u(d.src[k])), key_of(datum(u(d.src[k]))) == k,
-                                                                             d.dom[k], d.val[k] == datum(u(d.src[k])))))),
-                ('covered', z3.ForAll([j], z3.Implies(z3.And(j >= 0, j < i, sel(u(j))), d.src[key_of(datum(u(j)))] >= j)))]
+def install_merge_loops(shape):
+    """the same role-dispatching contract for every loop of the function and of the module-level helpers it calls"""
+    for name, f in shape.closure.items():
+        for k in range(1, len([n for n in ast.walk(f) if isinstance(n, (ast.For, ast.While))]) + 1):
+            E.LOOPS[(MDU, name, k)] = E.LoopSpec(merge_loop_invariant)
 
-    E.LOOPS[(MDU, shape.fname, 1)] = E.LoopSpec(inv1)
-    E.LOOPS[(MDU, shape.fname, 2)] = E.LoopSpec(inv2)
+
+_LOOP_NAME = re.compile(r'^(?:C10\.)?[\w.]+\.loop\d+\.(old_items|updates)\.(\w+)\.(init|preserve)$')
+
+
+def merge_rename(shape):
+    """obligation names by role, independent of the function that happens to contain the loop"""
+    def rename(n):
+        m = _LOOP_NAME.match(n)
+        if m:
+            return 'C10.%s.loop.%s.%s.%s' % (shape.fname, m.group(1), m.group(2), m.group(3))
+        return n if n.startswith('C10.') else 'C10.' + n
+    return rename
 
 
 def merge_entry(shape, n0=None, m=None, string_values=False):
     """entry(it): symbolic container and update list; n0/m = concrete lengths for the bounded model query."""
     def entry(it):
         run = it.run
+        run.shape = shape
         csch = TRIAL() if shape.trial else SPEC()
         usch = UMU() if shape.trial else KV()
         c = Msg.from_term(csch, z3.Const('container0', pm.msg_sort(csch)))
@@ -257,8 +290,10 @@ def merge_bounded(shape, names, tier):
     sizes = sorted([(a, b) for a in range(top + 1) for b in range(top + 1) if a + b <= top + 1], key=lambda s: (s[0] + s[1], s))
     post = merge_post(shape)
     t0 = time.time()
+    budget = 40 if tier == 'quick' else 120
+    attempts = {}
     for n0, m in sizes:
-        if not (want - set(found)) or time.time() - t0 > (25 if tier == 'quick' else 120):
+        if not (want - set(found)) or time.time() - t0 > budget:
             break
         paths = E.explore(merge_entry(shape, n0, m, string_values=True), max_paths=3000, timeout_ms=1000, deadline_s=20)
         for p in paths:
@@ -267,9 +302,12 @@ def merge_bounded(shape, names, tier):
             for name, f in post(p):
                 if name not in want or name in found:
                     continue
-                v, model, dt = E.discharge(p.run, f, timeout_ms=5000)
+                if attempts.get(name, 0) >= 3 or time.time() - t0 > budget:
+                    continue              # budget: at most 3 native replays per obligation, bounded wall time
+                v, model, dt = E.discharge(p.run, f, timeout_ms=3000)
                 if v != 'sat':
                     continue
+                attempts[name] = attempts.get(name, 0) + 1
                 payload = merge_model_inputs(shape, p, model, n0, m)
                 res, raw = ckit.run_replay('c10_replay.py', ['merge'], payload)
                 clause = name.rsplit('.', 1)[1]
@@ -346,12 +384,13 @@ def merge_cross_check(chk, shape, tier):
 def check_merge(chk, fname, tier):
     shape = MergeShape(fname)
     chk.function(MDU, fname)
-    if shape.dict_name is None or len(shape.params) != 2:
-        chk.error('C10.%s.shape' % fname, 'cannot bind the function: expected two parameters and a dict-typed accumulator initialised empty')
+    if len(shape.params) != 2:
+        chk.error('C10.%s.shape' % fname, 'cannot bind the function: expected the two parameters (container, updates)')
         return
+    for h in sorted(set(shape.closure) - {fname}):
+        chk.function(MDU, h, role='inlined real code')
     install_merge_loops(shape)
-    c = ckit.Contract(chk, fname, timeout_ms=10000 if tier == 'quick' else 60000,
-                      rename=lambda n: n if n.startswith('C10.') else 'C10.' + n)
+    c = ckit.Contract(chk, fname, timeout_ms=10000 if tier == 'quick' else 60000, rename=merge_rename(shape))
     c.prove(merge_entry(shape), merge_post(shape), expect_paths=1)
     opened = c.open_names()
     bounded, spurious = {}, {}
@@ -900,16 +939,17 @@ def um_bounded(names, tier):
     found, spurious = {}, {}
     want = set(names) & {'C10.UpdateMetadata.split', 'C10.UpdateMetadata.ok_effect', 'C10.UpdateMetadata.missing_trial_reported'}
     post = um_post('contract')
+    t0, attempts = time.time(), {}
     for L in (1, 2):
-        if not (want - set(found)):
+        if not (want - set(found)) or time.time() - t0 > 60:
             break
         for p in E.explore(um_entry(L), max_paths=400, timeout_ms=1000, deadline_s=20):
             if p.kind not in ('return', 'raise'):
                 continue
             for name, f in post(p):
-                if name not in want or name in found:
+                if name not in want or name in found or attempts.get(name, 0) >= 3 or time.time() - t0 > 60:
                     continue
-                v, model, dt = E.discharge(p.run, f, timeout_ms=5000)
+                v, model, dt = E.discharge(p.run, f, timeout_ms=3000)
                 if v == 'unknown':
                     # the quantified axioms here are definitions (datastore contract); decide the ground part and let the replay arbitrate
                     v, model, dt = E.discharge(p.run, f, nax=0, timeout_ms=5000)
@@ -917,6 +957,7 @@ def um_bounded(names, tier):
                         v = 'sat-ground'
                 if v not in ('sat', 'sat-ground'):
                     continue
+                attempts[name] = attempts.get(name, 0) + 1
                 run = p.run
                 arr = run.delta0.arr
                 kvf = lambda t: [acc(KV(), 'ns')(t), acc(KV(), 'key')(t), acc(KV(), 'value')(t)]
